@@ -1,4 +1,5 @@
 #!/bin/sh
+export SQV_EVIDENCE_DIR=/tmp/sqv_mutant_evidence  # never overwrite the committed evidence with a mutant run
 # usage: check_seed.sh <seed id> [check ids...] : apply /verif/seeded/<id>/patch.diff to /repo, run checks, revert
 ID=$1; shift
 OUT=/verif/seeded/$ID
